@@ -30,6 +30,10 @@ pub enum Setter {
     Response = 3,
     Tid = 4,
     StaticResponse = 5,
+    /// the same setters reached through the C function table
+    CFlags = 6,
+    CRcode = 7,
+    COpcode = 8,
 }
 
 /// One evaluation: header word `word` (and id 0xa55a), setter applied with `arg`.
@@ -48,6 +52,9 @@ pub fn eval(pp: &mut ParsedPacket, base: &[u8], setter: Setter, word: u16, arg: 
         Setter::Response => pp.set_response(arg & 1 == 1),
         Setter::Tid => pp.set_tid(arg as u16),
         Setter::StaticResponse => DNSSector::set_response(pp.packet_mut(), arg & 1 == 1),
+        Setter::CFlags => unsafe { (dnssector::c_abi::fn_table().set_flags)(pp as *mut ParsedPacket, arg) },
+        Setter::CRcode => unsafe { (dnssector::c_abi::fn_table().set_rcode)(pp as *mut ParsedPacket, arg as u8) },
+        Setter::COpcode => unsafe { (dnssector::c_abi::fn_table().set_opcode)(pp as *mut ParsedPacket, arg as u8) },
     });
     let desc = || format!("setter={:?} header word={:#06x} arg={:#x}", setter, word, arg);
     if let Err(pm) = r {
@@ -58,9 +65,9 @@ pub fn eval(pp: &mut ParsedPacket, base: &[u8], setter: Setter, word: u16, arg: 
     let w_after = ((after[2] as u16) << 8) | after[3] as u16;
     let id_after = ((after[0] as u16) << 8) | after[1] as u16;
     let (mask, want_field): (u16, u16) = match setter {
-        Setter::Flags => (FLAG_BITS, arg as u16 & FLAG_BITS),
-        Setter::Rcode => (0x000f, arg as u16 & 0x0f),
-        Setter::Opcode => (0x7800, (arg as u16 & 0x0f) << 11),
+        Setter::Flags | Setter::CFlags => (FLAG_BITS, arg as u16 & FLAG_BITS),
+        Setter::Rcode | Setter::CRcode => (0x000f, arg as u16 & 0x0f),
+        Setter::Opcode | Setter::COpcode => (0x7800, (arg as u16 & 0x0f) << 11),
         Setter::Response | Setter::StaticResponse => (0x8000, if arg & 1 == 1 { 0x8000 } else { 0 }),
         Setter::Tid => (0, 0),
     };
@@ -85,11 +92,20 @@ pub fn eval(pp: &mut ParsedPacket, base: &[u8], setter: Setter, word: u16, arg: 
     ensure!(opcode as u16 == (w_after >> 11) & 0x0f, "C12 opcode-getter", "{}: opcode()={}", desc(), opcode);
     ensure!(is_resp == (w_after & 0x8000 != 0) && static_resp == is_resp, "C12 is_response-getter", "{}", desc());
     ensure!(tid == id_after, "C12 tid-getter", "{}", desc());
+    // the table's getters agree with the methods
+    let cg = catch(|| unsafe {
+        let t = dnssector::c_abi::fn_table();
+        ((t.flags)(pp as *const ParsedPacket), (t.rcode)(pp as *const ParsedPacket), (t.opcode)(pp as *const ParsedPacket))
+    });
+    match cg {
+        Err(pm) => fail!(format!("C12 getter-panic {}", panic_sig(&pm)), "table getters: {} {}", pm, desc()),
+        Ok(cg) => ensure!(cg == (flags, rcode, opcode), "C12 table-getters-differ", "{}: table flags/rcode/opcode = {:?}, methods = {:?}", desc(), cg, (flags, rcode, opcode)),
+    }
     // "each getter then returns the value stored, truncated to the field's width"
     match setter {
-        Setter::Flags => ensure!(flags as u16 == arg as u16 & FLAG_BITS, "C12 Flags getter-does-not-return-stored-value", "{}: flags()={:#x}", desc(), flags),
-        Setter::Rcode => ensure!(rcode == arg as u8 & 0x0f, "C12 Rcode getter-does-not-return-stored-value", "{}", desc()),
-        Setter::Opcode => ensure!(opcode == arg as u8 & 0x0f, "C12 Opcode getter-does-not-return-stored-value", "{}", desc()),
+        Setter::Flags | Setter::CFlags => ensure!(flags as u16 == arg as u16 & FLAG_BITS, "C12 Flags getter-does-not-return-stored-value", "{}: flags()={:#x}", desc(), flags),
+        Setter::Rcode | Setter::CRcode => ensure!(rcode == arg as u8 & 0x0f, "C12 Rcode getter-does-not-return-stored-value", "{}", desc()),
+        Setter::Opcode | Setter::COpcode => ensure!(opcode == arg as u8 & 0x0f, "C12 Opcode getter-does-not-return-stored-value", "{}", desc()),
         Setter::Response | Setter::StaticResponse => ensure!(is_resp == (arg & 1 == 1), "C12 Response getter-does-not-return-stored-value", "{}", desc()),
         Setter::Tid => ensure!(tid == arg as u16, "C12 Tid getter-does-not-return-stored-value", "{}", desc()),
     }
@@ -112,7 +128,10 @@ pub fn replay_c12(data: &[u8]) -> PResult {
         2 => Setter::Opcode,
         3 => Setter::Response,
         4 => Setter::Tid,
-        _ => Setter::StaticResponse,
+        5 => Setter::StaticResponse,
+        6 => Setter::CFlags,
+        7 => Setter::CRcode,
+        _ => Setter::COpcode,
     };
     let word = ((data[1] as u16) << 8) | data[2] as u16;
     let arg = u32::from_be_bytes([data[3], data[4], data[5], data[6]]);
@@ -213,12 +232,35 @@ pub fn check_c12(ctx: &Ctx, known: &KnownFindings) -> Report {
                     for a in 0..256u32 {
                         run(&mut pp, Setter::Rcode, w, a, 0x000f, &mut n, &mut nt);
                         run(&mut pp, Setter::Opcode, w, a, 0x7800, &mut n, &mut nt);
+                        run(&mut pp, Setter::CRcode, w, a, 0x000f, &mut n, &mut nt);
+                        run(&mut pp, Setter::COpcode, w, a, 0x7800, &mut n, &mut nt);
+                    }
+                    for &low in lows.iter() {
+                        run(&mut pp, Setter::CFlags, w, low, FLAG_BITS, &mut n, &mut nt);
+                        run(&mut pp, Setter::CFlags, w, 0xffff_0000 | low, FLAG_BITS, &mut n, &mut nt);
                     }
                     for a in 0..2u32 {
                         run(&mut pp, Setter::Response, w, a, 0x8000, &mut n, &mut nt);
                         run(&mut pp, Setter::StaticResponse, w, a, 0x8000, &mut n, &mut nt);
                     }
                     word += threads as u32;
+                }
+                // the same argument again and again while the header changes underneath (what a setter
+                // that remembers its last argument would skip): argument outer, header word inner
+                for &low in lows.iter() {
+                    let mut w = t as u32;
+                    while w <= 0xffff {
+                        for s in [Setter::Flags, Setter::CFlags, Setter::Rcode, Setter::CRcode, Setter::Opcode, Setter::COpcode, Setter::Response] {
+                            let mask = match s {
+                                Setter::Flags | Setter::CFlags => FLAG_BITS,
+                                Setter::Rcode | Setter::CRcode => 0x000f,
+                                Setter::Opcode | Setter::COpcode => 0x7800,
+                                _ => 0x8000,
+                            };
+                            run(&mut pp, s, w as u16, low, mask, &mut n, &mut nt);
+                        }
+                        w += (threads * 37) as u32;
+                    }
                 }
                 // set_tid: all 65536 ids x sampled header words
                 let mut id = t as u32;
@@ -249,16 +291,16 @@ pub fn check_c12(ctx: &Ctx, known: &KnownFindings) -> Report {
     rep.extra.insert(
         "exhaustive_subspace".into(),
         json!(if thorough {
-            "set_flags: all 65536 header words x all 65536 low argument halves (+ sampled upper halves); set_rcode/set_opcode: 65536 x 256; set_response (method and DNSSector::set_response): 65536 x 2; set_tid: 65536 ids x 32 words"
+            "set_flags: all 65536 header words x all 65536 low argument halves (+ sampled upper halves); set_rcode/set_opcode (method and C table entry): 65536 x 256; C-table set_flags: 65536 x 98 x 2; set_response (method and DNSSector::set_response): 65536 x 2; set_tid: 65536 ids x 32 words; argument-outer pass: 98 arguments x 1772 words x 7 setters"
         } else {
-            "set_flags: all 65536 header words x {0, 0xffff, 16 one-hot, 16 one-cold, 64 drawn, complement of the word} x upper halves {0, all ones, one-hot, drawn}; set_rcode/set_opcode: 65536 x 256; set_response (method and DNSSector::set_response): 65536 x 2; set_tid: 65536 ids x 32 words"
+            "set_flags: all 65536 header words x {0, 0xffff, 16 one-hot, 16 one-cold, 64 drawn, complement of the word} x upper halves {0, all ones, one-hot, drawn}; set_rcode/set_opcode (method and C table entry): 65536 x 256; C-table set_flags: 65536 x 98 x 2; set_response (method and DNSSector::set_response): 65536 x 2; set_tid: 65536 ids x 32 words; argument-outer pass (same argument while the header word changes): 98 arguments x 1772 words x 7 setters"
         }),
     );
     // the enumeration has no duplicates, so the count of non-trivial triples is exact
     rep.counted_nontrivial = nt;
     rep.stats.sample("set_flags", json!({"header_word": "0xffff", "argument": "0x0", "expected_word_after": "0x780f"}));
     rep.stats.sample("set_rcode", json!({"header_word": "0xfff0", "argument": "0xff", "expected_word_after": "0xffff"}));
-    rep.rule = "exhaustive enumeration of (setter, 16-bit header word, argument): see exhaustive_subspace. Oracle (bit arithmetic on the 12 header bytes): only bits in mask 0x87f0 (set_flags), 0x000f (set_rcode), 0x7800 (set_opcode), 0x8000 (set_response), bytes 0-1 (set_tid) may change and they take the argument's value; all other bytes of the packet unchanged; flags()/rcode()/opcode()/is_response()/tid() return the stored value truncated to the field width; flags() upper half stays the EDNS flags. Non-trivial: the starting word has a bit set outside the target field (what a wrong mask would clobber); counted exactly (the enumeration has no duplicates).".into();
+    rep.rule = "exhaustive enumeration of (setter, 16-bit header word, argument): see exhaustive_subspace. Oracle (bit arithmetic on the 12 header bytes): only bits in mask 0x87f0 (set_flags), 0x000f (set_rcode), 0x7800 (set_opcode), 0x8000 (set_response), bytes 0-1 (set_tid) may change and they take the argument's value; all other bytes of the packet unchanged; flags()/rcode()/opcode()/is_response()/tid() return the stored value truncated to the field width; flags() upper half stays the EDNS flags; the C table's set_flags/set_rcode/set_opcode and flags/rcode/opcode entries obey the same rules on the same object. Non-trivial: the starting word has a bit set outside the target field (what a wrong mask would clobber); counted exactly (the enumeration has no duplicates).".into();
     rep.assumptions = vec!["header word written directly into the packet bytes before each call (flags are not cached by the object)".into()];
     rep
 }
